@@ -38,6 +38,29 @@ def allowedPeers (list : List Nat) (req : AReq) : Except AResp AReq :=
   | none => .error ⟨statusInternal, 0⟩
   | some p => if p ∈ list then .ok req else .error ⟨statusNotFound, 0⟩
 
+/-- a history of calls through the layer over a STATEFUL inner service (`step`): the service state
+threads through exactly the accepted requests; one response per request -/
+def authRun {S : Type} (auth : AReq → Except AResp AReq) (step : S → AReq → S × AResp) :
+    S → List AReq → S × List AResp × List AReq
+  | s, [] => (s, [], [])
+  | s, r :: rs =>
+    match auth r with
+    | .ok r' =>
+      let (s', resp) := step s r'
+      let (sf, resps, seen) := authRun auth step s' rs
+      (sf, resp :: resps, r' :: seen)
+    | .error e =>
+      let (sf, resps, seen) := authRun auth step s rs
+      (sf, e :: resps, seen)
+
+/-- the requests of a history the authorizer accepts (as it passes them on) -/
+def accepted (auth : AReq → Except AResp AReq) : List AReq → List AReq
+  | [] => []
+  | r :: rs => match auth r with
+    | .ok r' => r' :: accepted auth rs
+    | .error _ => accepted auth rs
+
+
 /-! ## Inflight limit -/
 structure PeerSlots where
   running : List Nat := []
